@@ -303,4 +303,77 @@ theorem build_all (P : It σ → Prop) (hP : ∀ a b, P a → P b → P (It.init
       (by intro x hx; simp only [List.mem_map] at hx; obtain ⟨s, hs, rfl⟩ := hx; exact h s hs)
     exact hall t (List.mem_of_mem_head? ht)
 
+/-! ## sorted sources: the order does not depend on the map iteration order -/
+
+theorem insertLine_perm {α : Type} (x : Bytes × α) (l : List (Bytes × α)) : (insertLine x l).Perm (x :: l) := by
+  induction l with
+  | nil => simp [insertLine]
+  | cons y ys ih =>
+    simp only [insertLine]
+    split
+    · exact List.Perm.refl _
+    · exact (List.Perm.cons y ih).trans (List.Perm.swap x y ys)
+
+theorem sortLines_perm {α : Type} (l : List (Bytes × α)) : (sortLines l).Perm l := by
+  induction l with
+  | nil => simp [sortLines]
+  | cons x xs ih =>
+    show (insertLine x (sortLines xs)).Perm (x :: xs)
+    exact (insertLine_perm x _).trans (List.Perm.cons x ih)
+
+theorem insertLine_sorted {α : Type} (x : Bytes × α) (l : List (Bytes × α))
+    (h : l.Pairwise (fun a b => Go.bytesLe a.1 b.1 = true)) :
+    (insertLine x l).Pairwise (fun a b => Go.bytesLe a.1 b.1 = true) := by
+  induction l with
+  | nil => simp [insertLine]
+  | cons y ys ih =>
+    rw [List.pairwise_cons] at h
+    simp only [insertLine]
+    split
+    · rename_i hle
+      refine List.pairwise_cons.mpr ⟨?_, List.pairwise_cons.mpr h⟩
+      intro z hz
+      rcases List.mem_cons.mp hz with rfl | hz
+      · exact hle
+      · exact Go.bytesLe_trans _ _ _ hle (h.1 z hz)
+    · rename_i hnle
+      refine List.pairwise_cons.mpr ⟨?_, ih h.2⟩
+      intro z hz
+      have hz' := (insertLine_perm x ys).mem_iff.mp hz
+      rcases List.mem_cons.mp hz' with rfl | hz'
+      · rcases Go.bytesLe_total y.1 z.1 with h1 | h1
+        · exact h1
+        · exact absurd h1 hnle
+      · exact h.1 z hz'
+
+theorem sortLines_sorted {α : Type} (l : List (Bytes × α)) :
+    (sortLines l).Pairwise (fun a b => Go.bytesLe a.1 b.1 = true) := by
+  induction l with
+  | nil => simp [sortLines]
+  | cons x xs ih => exact insertLine_sorted x _ ih
+
+theorem eq_of_key_eq {α : Type} {l : List (Bytes × α)} (hn : (l.map (·.1)).Nodup) {a b : Bytes × α}
+    (ha : a ∈ l) (hb : b ∈ l) (h : a.1 = b.1) : a = b := by
+  induction l with
+  | nil => cases ha
+  | cons x xs ih =>
+    simp only [List.map_cons, List.nodup_cons, List.mem_map, not_exists, not_and] at hn
+    rcases List.mem_cons.mp ha with rfl | ha' <;> rcases List.mem_cons.mp hb with rfl | hb'
+    · rfl
+    · exact absurd h.symm (hn.1 b hb')
+    · exact absurd h (hn.1 a ha')
+    · exact ih hn.2 ha' hb'
+
+/-- two iteration orders of one map (distinct keys) sort to the same list -/
+theorem sortLines_order_independent {α : Type} (o1 o2 : List (Bytes × α)) (hp : o1.Perm o2)
+    (hn : (o1.map (·.1)).Nodup) : sortLines o1 = sortLines o2 := by
+  have p1 := sortLines_perm o1
+  have p2 := sortLines_perm o2
+  refine List.Perm.eq_of_pairwise (le := fun a b => Go.bytesLe a.1 b.1 = true) ?_
+    (sortLines_sorted o1) (sortLines_sorted o2) ((p1.trans hp).trans p2.symm)
+  intro a b ha hb h1 h2
+  have ha' : a ∈ o1 := p1.mem_iff.mp ha
+  have hb' : b ∈ o1 := hp.mem_iff.mpr (p2.mem_iff.mp hb)
+  exact eq_of_key_eq hn ha' hb' (Go.bytesLe_antisymm _ _ h1 h2)
+
 end Logrange.MixTree
